@@ -333,8 +333,16 @@ def execute(program, ctx, mode):
         real_bases = tuple(node[b] for b in bl) or (Interface,)
         mb = list(bl) or ['Interface']
         if strict_env and model_consistent(lbl, mb) is False:
+            # strict mode refuses the definition.  The caller catches the error and carries on: the refused object is garbage,
+            # nothing of it may linger (later re-basings of its would-be bases are judged as if it had never been tried)
             ctx.probe('strict-skip-inconsistent-new')
             counters['I'] -= 1
+            counters['refused'] = counters.get('refused', 0) + 1
+            try:
+                InterfaceClass('Refused%d' % counters['refused'], real_bases, d, __module__='zisim.g')
+                ctx.violation('C03', 'strict-missed', 'C03|strict|definition-accepted-although-no-C3', {'bases': mb})
+            except ICE:
+                ctx.fault('refused-definition')
             return None
         # ... and some interfaces are instances of an InterfaceClass subclass that is false in a boolean context and hashes in its
         # own (equality-consistent) way.  (An interface named like one of its own bases was tried and dropped: `extends` is defined
@@ -1185,6 +1193,14 @@ def execute(program, ctx, mode):
                 if not strict_env:
                     ctx.violation('C03', 'raise-nonstrict', 'C03|rebase-raises-in-non-strict-mode', {'node': s})
                 if expect_raise is False:
+                    # (told apart from the known transient of defect F10: a definition that strict mode refused earlier is
+                    # still subscribed to a live specification, and it is *that* unreachable object the re-basing trips over)
+                    left = [getattr(dep, '__name__', '') for x in live() + ['Interface'] if node.get(x) is not None
+                            for dep in (list(node[x]._dependents.keys()) if node[x]._dependents else [])
+                            if str(getattr(dep, '__name__', '')).startswith('Refused')]
+                    if left:
+                        ctx.violation('C03', 'strict-leftover', 'C03|strict|rebase-raises-because-a-refused-definition-lingers',
+                                      {'node': s, 'bases': dict(bases_of), 'old': old, 'leftover': left[:3]})
                     ctx.violation('C03', 'strict-transient', 'C03|strict|rebase-raises-although-every-node-has-C3',
                                   {'node': s, 'bases': dict(bases_of), 'old': old})
                 ctx.probe('strict-raise-expected')
